@@ -216,6 +216,9 @@ func (c *channel) sendMsg(req request) (err error) {
 
 	c.streamMut.RLock()
 	defer c.streamMut.RUnlock()
+	// the cancel function of the stream used below; reconnect may replace
+	// c.cancelStream once the read lock has been released.
+	cancelStream := c.cancelStream
 
 	done := make(chan struct{})
 
@@ -236,7 +239,7 @@ func (c *channel) sendMsg(req request) (err error) {
 			default:
 				verifPoint("wat.beforeCancel", c)
 				// trigger reconnect
-				c.cancelStream()
+				cancelStream()
 			}
 		}
 	}()
